@@ -29,7 +29,7 @@ def gen(rep, tier, clauses):
         classes = CLASSES if not (tier == "thorough" and (w, m) in ((2, 3), (3, 2))) else '{"blank", "int", "padint", "float", "text", "quoted"}'
         r = engine.run_tlc("Gen_Csv", _cfg(w, m, classes), timeout=1800)
         rep.add_mc(r, f"Gen_Csv width={w} records<={m}: shape laws + cases")
-        cases = [c for _, c in r.prints]
+        cases = [dict(c, _n=i) for i, (_, c) in enumerate(r.prints)]
         cp, op = os.path.join(sc, "csv_cases.json"), os.path.join(sc, "csv_out.json")
         json.dump(cases, open(cp, "w"))
         rep.sample({"suite": "csv.gen", "case": cases[len(cases) // 2]})
